@@ -176,6 +176,32 @@ def count_obligations(build, vfiles):
     return total, names, sorted(files)
 
 
+class NotReplayable(Exception):
+    """raised by a module's replay() for an input it has no single-case runner for (inputs of directed families)"""
+
+
+def rerun_for_replay(mod, prop, rp, why):
+    """replay of an input that only its own family can produce: the families are deterministic functions of (property, tier,
+    seed), which the replay file records - run them again and see whether the recorded input (or, if it was shrunk, any input
+    of its family) fails"""
+    tier = rp.get('tier') if rp.get('tier') in ('quick', 'thorough') else 'quick'
+    print('replay by re-running the check with tier=%s seed=%s: %s' % (tier, rp.get('seed', 0), why))
+    ctx = Ctx(prop, tier, int(rp.get('seed', 0) or 0))
+    ctx.build = coqbuild.ensure_built()
+    try:
+        mod.run(ctx)
+    except Exception:
+        print('the check machinery crashed:', traceback.format_exc()[-1500:])
+        return False
+    want_case = json.dumps(rp.get('case'), sort_keys=True, default=str)
+    fam = rp.get('family')
+    hits = [f for f in ctx.failures if f.finding is None and
+            (json.dumps(f.case, sort_keys=True, default=str) == want_case or (fam is not None and f.family == fam))]
+    for f in hits[:5]:
+        print('  fails again [%s]: %s' % (f.family, str(f.explanation)[:600]))
+    return not hits
+
+
 def main(argv=None):
     ap = argparse.ArgumentParser()
     ap.add_argument('prop')
@@ -193,9 +219,23 @@ def main(argv=None):
     mod = importlib.import_module('harness.props.' + prop)
     ctx = Ctx(prop, tier, args.seed)
 
+    if args.replay and json.load(open(args.replay)).get('kind') == 'no-failing-input-found':
+        # the replay file names obligations / correspondences that no longer check, not an input: replaying it is running
+        # the check again with the recorded tier and seed
+        rp = json.load(open(args.replay))
+        tier = rp.get('tier') if rp.get('tier') in ('quick', 'thorough') else 'quick'
+        args.seed = int(rp.get('seed', 0) or 0)
+        print('replay of %s: no input recorded (%s); running the check with tier=%s seed=%d' % (args.replay, rp.get('what'), tier, args.seed))
+        ctx = Ctx(prop, tier, args.seed)
+        args.replay = None
     if args.replay:
         rp = json.load(open(args.replay))
-        ok = mod.replay(ctx, rp)
+        try:
+            ok = mod.replay(ctx, rp)
+        except NotReplayable as e:
+            ok = rerun_for_replay(mod, prop, rp, 'the input belongs to a directed family (%s)' % e)
+        except Exception as e:   # noqa - the module's replay is written for its own case format only
+            ok = rerun_for_replay(mod, prop, rp, 'the module replay does not take this input (%s: %s)' % (type(e).__name__, e))
         print('replay: property %s %s on %s' % (prop, 'HOLDS' if ok else 'FAILS', args.replay))
         if not ok:
             print('VIOLATION property=%s replay=%s' % (prop, args.replay))
